@@ -37,7 +37,7 @@ ASSUMPTIONS = [
 ]
 EXHAUSTIVE = "all 720 (section order x ~A position) layouts; every title spelling of every section kind"
 REQUIRED = ["reads", "tags_checked", "cells_checked", "layouts_data_not_last", "lowercase_title_cases", "steering_name_cases",
-            "custom_sections_checked", "other_lines_checked", "other_sections_with_blank_lines", "header_only_reads"]
+            "custom_sections_checked", "other_lines_checked", "other_sections_with_blank_lines", "header_only_reads", "rereads_into_same_object"]
 SOFT_DEADLINE = {"quick": 90, "thorough": 1200}
 LEVEL_TEXT = ("Exploration with an exactly-once conservation oracle over unique tags and coordinate-carrying cells; the "
               "section-order space (720 layouts) and the documented title spellings are enumerated completely.")
@@ -172,6 +172,14 @@ def run_case(case, ctx):
     except Exception as e:
         V("read-raised:%s:%s" % (type(e).__name__, cls), "read raised %r" % (e,), detail)
         return
+    if case["seed"] % 4 == 1:
+        # reading the same text again into the same object must give the same attribution (nothing carried over, nothing doubled)
+        ctx.count("rereads_into_same_object")
+        try:
+            las.read(text, engine=case["engine"], mnemonic_case="preserve", ignore_data=header_only)
+        except Exception as e:
+            V("reread-into-same-object-raised:%s" % type(e).__name__, "second read() into the same LASFile raised %r" % (e,), detail)
+            return
     seen_tags = {}
     for name, sec in las.sections.items():
         if isinstance(sec, str):
